@@ -162,6 +162,28 @@ class PeerConn:
                     self.log['closed_by_peer_at'] = self.k.now
                 else:
                     return
+            elif op == 'drain':
+                # like 'eof', but every further packet the tool sends is still decoded and logged
+                while True:
+                    try:
+                        got = wire.parse_frame(self.buf)
+                    except WireError:
+                        del self.buf[:]
+                        got = None
+                    if got is None:
+                        break
+                    total, payload, info = got
+                    del self.buf[:total]
+                    info['type'] = payload[0] if payload else None
+                    info['after_reply'] = True
+                    self.log['frames'].append(info)
+                if rx.fin or rx.rst:
+                    del self.buf[:]
+                    self.req, self.result = None, None
+                    self.log['eof_seen'] = True
+                    self.log['closed_by_peer_at'] = self.k.now
+                else:
+                    return
             elif op == 'sleep':
                 self.req = ('sleeping',)
                 self.k.after(req[1], self._wake)
@@ -511,7 +533,7 @@ class SimSSHServer:
             self.log['hostkeys_sent'].append({'conn': pc.ordinal, 'alg': keys_, 'kex': kexs, 'blob_sha256': wire.fp_sha256(blob), 'len': len(blob)})
         log['stage'] = 'reply_sent'
         yield ('send', 'newkeys', wire.frame(bytes([wire.MSG_NEWKEYS])))
-        yield ('eof',)
+        yield ('drain',)
         yield ('close',)
 
     def _check_e(self, log, e, pmod):
